@@ -6,8 +6,8 @@ from harness import common, gen_tree, trees, treeimpl
 from harness.common import cps, uncps
 from harness.props.c01 import model_verify, all_texts
 
-BRIDGE = ('Gemato.Bridge.Tree',)
-PROPS = ['Gemato.Props.C07']
+BRIDGE = ('Gemato.Bridge.Tree', 'Gemato.Bridge.SrcWalk', 'Gemato.Bridge.SrcVerify')
+PROPS = ['Gemato.Props.C07', 'Gemato.Props.C01b']
 
 
 def offending_oracle(root, pl, path, top):
